@@ -499,11 +499,15 @@ def run(prop, obs, tier, seed, records, violations, known_hits, inconclusive):
                     new.append((key, inst, shape, conc, what))
             rec["finding_keys"] = sorted({findings.key_mirsym(ob, r[0]) for r in reproduced})
             if new:
-                key, inst, shape, conc, what = new[0]
-                path = write_replay_file(prop, ob, spec, inst, shape, conc, what)
                 rec["verdict"] = "counterexample"
-                rec["replay"] = path
-                violations.append({"path": path, "what": f"{key} :: inputs {show(conc)} :: {what}"[:600]})
+                seen = set()
+                for key, inst, shape, conc, what in new:
+                    if key in seen:
+                        continue
+                    seen.add(key)
+                    path = write_replay_file(prop, ob, spec, inst, shape, conc, what, suffix=len(seen))
+                    rec["replay"] = path
+                    violations.append({"path": path, "what": f"{key} :: inputs {show(conc)} :: {what}"[:600]})
             else:
                 rec["verdict"] = "known-finding"
         elif unreproduced:
@@ -531,10 +535,10 @@ def finish_smt(prop, ob, rec, violations, known_hits, inconclusive):
     inconclusive.append((ob.id, rec.get("why", "undecided")))
 
 
-def write_replay_file(prop, ob, spec, inst, shape, conc, what):
+def write_replay_file(prop, ob, spec, inst, shape, conc, what, suffix=1):
     os.makedirs(replay.OUT_DIR, exist_ok=True)
     nat = spec.native(inst, shape, conc)
-    p = os.path.join(replay.OUT_DIR, f"{prop}_{re.sub(r'[^A-Za-z0-9_.]', '_', ob.id)}.txt")
+    p = os.path.join(replay.OUT_DIR, f"{prop}_{re.sub(r'[^A-Za-z0-9_.]', '_', ob.id)}" + (f"_{suffix}" if suffix > 1 else "") + ".txt")
     with open(p, "w") as f:
         f.write(f"# replay of a mirsym/z3 counterexample for property {prop}, obligation {ob.id}\n")
         f.write(f"# function: {spec.fn_path or spec.method}  instantiation: {_inst_name(inst)}  shape: {shape}\n")
